@@ -132,7 +132,7 @@ class StructureOther(Scenario):
         from geoh5py.objects import Points
         from .c04 import _build_group
         what = ["copy object across", "copy group across", "drillhole group: remove hole", "drillhole group: remove data",
-                "drillhole group: copy across", "copy back and forth"][int(cx.int("case", 0, 6))]
+                "drillhole group: copy across", "copy back and forth", "copy survey with its cell-id data in a property group"][int(cx.int("case", 0, 7))]
         reopen = bool(cx.bool("re-open before the step"))
         other = Workspace()
         if what.startswith("drillhole"):
@@ -149,6 +149,22 @@ class StructureOther(Scenario):
                 ws.remove_entity(holes[0].get_data("lbl")[0])
             else:
                 g.copy(parent=other)
+        elif what.startswith("copy survey"):
+            from geoh5py.objects import CurrentElectrode
+            ws = Workspace()
+            verts = real_np.c_[real_np.arange(4.0), real_np.zeros(4), real_np.zeros(4)]
+            ce = CurrentElectrode.create(ws, vertices=verts, parts=real_np.array([0, 0, 1, 1], dtype="int32"), name="currents")
+            ce.add_default_ab_cell_id()
+            extra = ce.add_data({"d": {"values": real_np.arange(ce.n_cells, dtype=float), "association": "CELL"}})
+            ce.find_or_create_property_group(name="ids", properties=[ce.ab_cell_id.uid, extra.uid])
+            if reopen:
+                ws.close()
+                ws = Workspace(ws.h5file)
+                ce = ws.get_entity("currents")[0]
+            try:
+                ce.copy(parent=other if bool(cx.bool("to the other workspace")) else None)
+            except KeyError:
+                pass        # the unchanged library refuses this copy (the cell-id data is not copied as an ordinary child)
         else:
             ws = Workspace()
             grp = ContainerGroup.create(ws, name="G")
